@@ -61,6 +61,9 @@ _registry0 = None
 _SETUP_DONE = []
 
 
+RULE = RULE + ' Round 15: the in-place variant is additionally executed directly on the working dataset itself (which may be a NumPy view of an earlier, still monitored source); values are compared with the run on the copy only for identical (C) layouts.'
+
+
 def setup():
     if _SETUP_DONE:
         return
